@@ -92,11 +92,15 @@ impl CssDestination for CssData {
     ) -> Result<RuleDest<'_>> {
         Ok(RuleDest::new(self, selectors))
     }
-    fn start_atmedia(&mut self, args: MediaArgs) -> AtMediaDest<'_> {
-        AtMediaDest::new(self, args)
+    fn start_atmedia(&mut self, args: MediaArgs) -> Result<AtMediaDest<'_>> {
+        Ok(AtMediaDest::new(self, args))
     }
-    fn start_atrule(&mut self, name: String, args: Value) -> AtRuleDest<'_> {
-        AtRuleDest::new(self, name, args)
+    fn start_atrule(
+        &mut self,
+        name: String,
+        args: Value,
+    ) -> Result<AtRuleDest<'_>> {
+        Ok(AtRuleDest::new(self, name, args))
     }
     fn start_nsrule(&mut self, _name: String) -> Result<NsRuleDest<'_>> {
         Err(Invalid::GlobalNsProperty)
